@@ -1794,9 +1794,14 @@ class LinearOperator(object):
     def is_square(self) -> bool:
         return self.matrix_shape[0] == self.matrix_shape[1]
 
-    @_implements_symmetric(torch.isclose)
+    @_implements(torch.isclose)
     def isclose(self, other, rtol: float = 1e-05, atol: float = 1e-08, equal_nan: bool = False) -> Tensor:
         return self._isclose(other, rtol=rtol, atol=atol, equal_nan=equal_nan)
+
+    @_implements_second_arg(torch.isclose)
+    def _risclose(self, other, rtol: float = 1e-05, atol: float = 1e-08, equal_nan: bool = False) -> Tensor:
+        # torch.isclose(other, self) is not symmetric: the relative tolerance applies to |self|, the second operand
+        return torch.isclose(to_dense(other), to_dense(self), rtol=rtol, atol=atol, equal_nan=equal_nan)
 
     @_implements(torch.log)
     def log(self: Float[LinearOperator, "*batch M N"]) -> Float[LinearOperator, "*batch M N"]:
